@@ -5,12 +5,39 @@ import json, sys
 ALL = ["C%02d" % i for i in range(1, 21)]
 
 # id -> (level, technique, level_text, level_note, design_ref)
+MC = "model_checking"
+HIST = "explicit-state BFS over environment histories, every transition executed on the real implementation (Node.Run under a controlled cooperative scheduler with virtual clock/network; successors by replay on a fresh instance; canonical state keys by reflective dump)"
+NOTE_NODE = "Peer model P is one Bitcoin-node behaviour (answers getheaders/getdata, BIP130 header announcements, pings); hist mode explores quiescent-point event orders with the canonical thread schedule and merges states differing only in poll phase; storage key-atomic; synthetic blocks/txs without PoW or signatures."
 CHECKS = {
- "C09": ("model_checking",
+ "C01": (MC, HIST + "; convergence decided by a fair drain suffix from every reached state",
+         "All histories up to depth 5 (thorough 7) over {answer requests in/out of order, extend 1/2/12, reorg depth 1/2, return to abandoned branch, ping, tick, settle, duplicate, clean restart, connection drop} from a synced and a cold-start scenario; from every reached state the node must converge to the peer's best chain after a drain incl. 61 s/601 s time-outs; HandleInSync only when all announced blocks are held.",
+         NOTE_NODE, "DESIGN.md §4 C01"),
+ "C03": (MC, HIST + "; per-txid delivery monitor as oracle",
+         "All histories up to depth 4 (thorough 6) of how relevant/child/irrelevant txs reach the node (trusted/untrusted inv and tx, getdata answers, local submission, blocks, restart, crash): HandleTx at most once per handler and txid, completeness, no irrelevant delivery, spent outputs per input, identical handler streams.",
+         NOTE_NODE, "DESIGN.md §4 C03"),
+ "C05": (MC, "explicit-state BFS on the real MemPool vs map[outpoint]set<txid> (component) + " + HIST + " (node level)",
+         "Component: every operation sequence up to depth 5 (7) over add/remove/conflicting/request/tick on 5 (7) txs with forced outpoint collisions, compared with a reference index. Node: all histories up to depth 4 (6) of arrival orders/sources/evictions; each relevant member of a conflicting pair reported unsafe, never safe afterwards, no spurious unsafe.",
+         NOTE_NODE, "DESIGN.md §4 C05"),
+ "C06": (MC, HIST + "; cancel/unsafe update oracle",
+         "All histories up to depth 4 (6) of unconfirmed relevant/irrelevant txs and confirming blocks with double spends (winner relevant or not, seen before or not, one or two losers); cancelled+unsafe update for each delivered loser, block on the node's chain. Two open known findings (winner seen before its block).",
+         NOTE_NODE, "DESIGN.md §4 C06"),
+ "C07": (MC, HIST + " with virtual clock; state-trajectory oracle + liveness phase from every state",
+         "All histories up to depth 4 (6) mixing untrusted/trusted announcements, conflicts, clock steps around the 2000 ms safe delay, confirmation, local submission, restart; invariants on every per-txid state sequence and safe-within-bound when warranted.",
+         NOTE_NODE, "DESIGN.md §4 C07"),
+ "C09": (MC,
          "bounded-exhaustive enumeration of operation sequences on the real BlockRepository vs a reference slice (explicit enumeration, no sampling)",
          "Every sequence of <=3 (thorough: <=4) macro operations {add, grow to boundary, revert to boundary, save, save+reload} over the 1000-header file boundaries is executed on the real block repository over an in-memory store (both delete-missing behaviours) and every by-height / by-hash / tip / range query is compared with a reference list after every step.",
          "Storage write/remove atomic per key; synthetic headers (no PoW); heights concentrated at 0, 1000k-1, 1000k, 1000k+1 (k<=3) and tip.",
          "DESIGN.md §4 C09"),
+ "C11": (MC, HIST + " with clean restart events",
+         "All histories up to depth 4 (6) with Stop + new Node on the same store at any quiescent point: no re-delivery, confirmation after restart is an update with proof, safe not repeated, flags sticky, GetTx returns the delivered tx.",
+         NOTE_NODE, "DESIGN.md §4 C11"),
+ "C13": (MC, "explicit-state BFS on the real state.State vs a two-FIFO reference model",
+         "Every operation sequence up to depth 6 (9) over announce/deliver(small, 60 MB)/pop/next-request/clear-all/clear-after/set-last on a tree with two forks; return values, counts, last hash and buffered-byte accounting compared after every step.",
+         "Fake block bodies (size only); component level (the wire-level order of getdata is exercised by C01's histories).", "DESIGN.md §4 C13"),
+ "C14": (MC, HIST + " with virtual clock; oracle over timestamped getdata(tx) on all connections",
+         "All histories up to depth 4 (6) of overlapping inv announcements from the trusted and two verified untrusted connections, deliveries, silence, pings, 1 s/3.1 s steps, confirmation: one request per 3 s window, none after the body/block, re-request from another announcer after the window.",
+         NOTE_NODE, "DESIGN.md §4 C14"),
 }
 
 PENDING_REASON = "check not built yet in this round (planned: see DESIGN.md §4); not claimed until it runs"
